@@ -37,6 +37,17 @@ def configs(tier, seed):
                 ek = "x".join(f"{l}{k}" for l, k in extra.items())
                 out.append(dict(h="in_to_stock_to_in", op=solver + "2d", key=f"in_to_stock_to_in/{solver}/grid=uneven/n=3/extra={ek}", solver=solver, grid="uneven", n=3, extra=extra))
         out.append(dict(h="solvers_agree", op="both2d", key="solvers_agree/grid=const/n=3/extra=r2xp3", grid="const", n=3, extra={"r": 2, "p": 3}))
+    # every array of the stock-driven model handed over as a transposed view (two label dimensions)
+    for solver in ("manual", "lapack"):
+        for extra in ({"r": 2, "p": 2}, {"r": 2, "p": 3}) if tier == "quick" else ({"r": 2, "p": 2}, {"r": 2, "p": 3}, {"r": 3, "p": 2, "q": 2}):
+            ek = "x".join(f"{l}{k}" for l, k in extra.items())
+            out.append(dict(h="in_to_stock_to_in", op=solver + "layout", key=f"in_to_stock_to_in/{solver}/grid=const/n=3/extra={ek}/arrays=transposed_views", solver=solver, grid="const", n=3, extra=extra, prealloc=True))
+    # one lifetime model object shared by both models, its parameters set again between the two constructions
+    for solver in ("manual", "lapack"):
+        for first in ("idsm", "sdsm"):
+            for extra in ({}, {"r": 2}):
+                ek = "x".join(f"{l}{k}" for l, k in extra.items()) or "-"
+                out.append(dict(h="shared_lifetime", op=solver + first, key=f"shared_lifetime/{solver}/built_first={first}/extra={ek}", solver=solver, first=first, grid="uneven", n=3, extra=extra))
     from checks.c09 import FIXED_SCHEDULES
 
     for sched in FIXED_SCHEDULES:
@@ -90,13 +101,41 @@ def run(cfg, w):
         w.set_scale(I)
         a = dsm.build_stock("idsm", dims, lifetime=lt(), inflow=I)
         a.compute()
-        s = dsm.build_stock("sdsm_" + cfg["solver"], dims, lifetime=lt(), stock=a.stock.values)
+        if cfg.get("prealloc"):
+            drv = dsm.prealloc(w, shape)
+            drv[...] = a.stock.values
+            s = dsm.build_stock("sdsm_" + cfg["solver"], dims, lifetime=lt(), stock=drv, inflow=dsm.prealloc(w, shape), outflow=dsm.prealloc(w, shape), keep_layout=True)
+        else:
+            s = dsm.build_stock("sdsm_" + cfg["solver"], dims, lifetime=lt(), stock=a.stock.values)
         s.compute()
         _cmp(w, "inflow_recovered", s.inflow.values, I)
         _cmp(w, "same_outflow", s.outflow.values, a.outflow.values)
         _cmp(w, "same_stock_by_cohort", s.get_stock_by_cohort(), a.get_stock_by_cohort())
         _cmp(w, "same_outflow_by_cohort", s.get_outflow_by_cohort(), a.get_outflow_by_cohort())
         _cmp(w, "inflow_input_untouched", a.inflow.values, I, chain=False)
+        return
+    if h == "shared_lifetime":
+        tab1 = dsm.sf_table(w, n, shape[1:], name="sg", constrain=("range",), diag_min=0.05)
+        L = lt()
+        I = w.arr("in", shape)
+        w.set_scale(I)
+        if cfg["first"] == "idsm":
+            a = dsm.build_stock("idsm", dims, lifetime=L, inflow=I)
+            L.set_prms(table=tab1)
+            s = dsm.build_stock("sdsm_" + cfg["solver"], dims, lifetime=L, stock=np.zeros(shape))
+        else:
+            s = dsm.build_stock("sdsm_" + cfg["solver"], dims, lifetime=L, stock=np.zeros(shape))
+            L.set_prms(table=tab1)
+            a = dsm.build_stock("idsm", dims, lifetime=L, inflow=I)
+        a.compute()
+        s.stock.set_values(a.stock.values.copy())
+        s.compute()
+        fresh = dsm.build_stock("idsm", dims, lifetime=dsm.AnyLifetime(dims=dims, table=tab1), inflow=I)
+        fresh.compute()
+        _cmp(w, "inflow_driven_model_uses_current_parameters", a.stock.values, fresh.stock.values, chain=False)
+        _cmp(w, "inflow_recovered", s.inflow.values, I)
+        _cmp(w, "same_outflow", s.outflow.values, a.outflow.values)
+        _cmp(w, "same_stock_by_cohort", s.get_stock_by_cohort(), a.get_stock_by_cohort())
         return
     if h == "stock_to_in_to_stock":
         S = w.arr("st", shape)
